@@ -717,6 +717,12 @@ class Evaluator:
     def _bind(self, target, value, env):
         if isinstance(target, ast.Name):
             env[target.id] = value
+        elif isinstance(target, ast.Subscript):
+            container = self.ev(target.value)
+            key = self.ev(target.slice)
+            if isinstance(container, Hole) or isinstance(key, Hole):
+                return
+            container[key] = value
         elif isinstance(target, (ast.Tuple, ast.List)):
             if isinstance(value, Hole):
                 for t in target.elts:
